@@ -47,8 +47,9 @@ prop("C01", engine="eval", prefixes=["C01."], level="model_checking",
      mc=("MxEval", "MC_MxEval_quick.cfg", "MC_MxEval_thorough.cfg"),
      jobs=lambda tier: [("eval", dict()), ("eval", dict(gen=dict(p_uncached=0.0))),
                         ("dyn", dict(_worker="make_dyn_trace")),
-                        ("inherit", dict(_worker="make_inh_trace"))],
-     quick=dict(traces=128, nops=25), thorough=dict(traces=3200, nops=40))
+                        ("inherit", dict(_worker="make_inh_trace")),
+                        ("edit", dict())],
+     quick=dict(traces=160, nops=25), thorough=dict(traces=4000, nops=40))
 prop("C02", engine="eval", prefixes=["C02."], level="model_checking",
      mc=("MxEval", "MC_MxEval_quick.cfg", "MC_MxEval_thorough.cfg"),
      mbt_extra={"quick": ["MBT_MxEval_cee.cfg"], "thorough": ["MBT_MxEval_cee.cfg"]},
